@@ -230,3 +230,72 @@ func VX_C17_PushRedial(args []int) {
 	vxAssert(bytes.Equal(seen, argCopy), "handler receives the original argument after a redial")
 	vxCover("c17.redial")
 }
+
+func init() { vxRegister("VX_C17_Sequence", VX_C17_Sequence) }
+
+// VX_C17_Sequence: on one connection a secure call is followed by an unmarked
+// one: the unmarked message passes unchanged in both directions whatever the
+// earlier call did. args: sameKey(0/1), sessionData(0/1: the serving session carries application data in its Swap), nBody
+func VX_C17_Sequence(args []int) {
+	sameKey, sessData, nBody := args[0], args[1], args[2]
+	skey := vxKeyA
+	if sameKey == 0 {
+		skey = vxKeyB
+	}
+	cli := erpc.NewPeer(erpc.PeerConfig{DefaultBodyCodec: "protobuf"}, NewPlugin(10001, vxKeyA))
+	srv := erpc.NewPeer(erpc.PeerConfig{DefaultBodyCodec: "protobuf"}, NewPlugin(10002, skey))
+	arg1 := vxBytes("arg1", nBody)
+	arg2 := vxBytes("arg2", nBody)
+	res2 := vxBytes("res2", nBody)
+	a2, r2 := append([]byte{}, arg2...), append([]byte{}, res2...)
+	handled := 0
+	var seen []byte
+	srv.SetUnknownCall(func(ctx erpc.UnknownCallCtx) (interface{}, *erpc.Status) {
+		handled++
+		seen = append([]byte{}, ctx.InputBodyBytes()...)
+		return res2, nil
+	})
+	cconn := newVxConn("cli:1", "srv:1")
+	sconn := newVxConn("srv:1", "cli:1")
+	cs, st := cli.ServeConn(cconn)
+	vxAssume(st.OK())
+	ss, st := srv.ServeConn(sconn)
+	vxAssume(st.OK())
+	if sessData == 1 {
+		ss.Swap().Store("uid", "u-1")
+	}
+	// 1: secure call
+	var got1 []byte
+	cs.AsyncCall("/op", arg1, &got1, make(chan erpc.CallCmd, 1), WithSecureMeta())
+	vxAssume(cconn.nWrites() == 1)
+	sconn.feed(cconn.writes[0])
+	vxWaitIdle()
+	vxAssert(sconn.nWrites() == 1, "[C03] first call answered once")
+	h1 := handled
+	vxAssert((sameKey == 1) == (h1 == 1), "secure call handled iff the keys match")
+	// 2: unmarked call
+	var got2 []byte
+	cmd2 := cs.AsyncCall("/op", arg2, &got2, make(chan erpc.CallCmd, 1))
+	vxAssume(cconn.nWrites() == 2)
+	rm, err := vxParse(cconn.writes[1])
+	vxAssert(err == nil && !vxHasSecure(rm) && bytes.Equal(vxBodyOf(rm), a2), "unmarked call after a secure one goes out unchanged")
+	sconn.feed(cconn.writes[1])
+	vxWaitIdle()
+	vxAssert(sconn.nWrites() == 2, "[C03] second call answered once")
+	if sconn.nWrites() != 2 {
+		return
+	}
+	vxAssert(handled == h1+1 && bytes.Equal(seen, a2), "unmarked call after a secure one reaches its handler with the original argument")
+	rep, err := vxParse(sconn.writes[1])
+	vxAssert(err == nil && rep.StatusOK(), "unmarked call after a secure one is answered OK")
+	vxAssert(err == nil && !vxHasSecure(rep) && bytes.Equal(vxBodyOf(rep), r2), "reply to an unmarked call passes unchanged (not encrypted because of an earlier secure call)")
+	cconn.feed(sconn.writes[1])
+	vxWaitIdle()
+	select {
+	case <-cmd2.Done():
+		vxAssert(cmd2.StatusOK() && bytes.Equal(got2, r2), "caller of the unmarked call receives the original result")
+	default:
+		vxFail("[C02] second call completed")
+	}
+	vxCover("c17.sequence")
+}
